@@ -8,6 +8,8 @@ CONSTANTS
   ArgTokens = {1, 2, 3, 4, 5, 6, 7, 8}
   MaxArgs = 2
   MaxLen = 2
+  CutLen = 6
+  FollowUp = TRUE
   Variants = {"strict"}
 INVARIANT TypeOK
 INVARIANT Conforms
